@@ -215,6 +215,24 @@ func (x *Exec) callFunc(fn *types.Func, recv Value, args []Value, st *State, e *
 	if v, ok := x.libCall(full, fn, recv, args, st, e); ok {
 		return v
 	}
+	if x.topC != nil && x.vc.silent == 0 {
+		for _, ca := range x.topC.CallAsserts {
+			if ca.Callee != key {
+				continue
+			}
+			env := x.frameEnv(st)
+			env.vars = copyVars(env.vars)
+			for i := 0; i < sig.Params().Len() && i < len(args); i++ {
+				if n := sig.Params().At(i).Name(); n != "" && n != "_" {
+					env.vars["$"+n] = TV{V: args[i], T: sig.Params().At(i).Type()}
+					env.vars["arg_"+n] = TV{V: args[i], T: sig.Params().At(i).Type()}
+				}
+			}
+			for _, g := range x.specConjuncts(ca.Clause.Expr, env) {
+				x.assert(st, "callsite", "at call to "+key+": "+g.label(ca.Clause.Label), g.t, ca.Clause.Tags, pos)
+			}
+		}
+	}
 	fc := x.prog.Contracts.Funcs[key]
 	fi := x.prog.FuncsByObj[fn]
 	if fc != nil && fc.Opts["inline"] == "" {
@@ -526,6 +544,10 @@ func (x *Exec) callContract(fc *FuncContract, fi *FuncInfo, sig *types.Signature
 			x.assert(st, "pre", key+": "+g.label(rq.Label), g.t, rq.Tags, pos)
 		}
 	}
+	// the environment acts first (the callee observes the state after it)
+	if !fc.Pure {
+		x.interfere(st)
+	}
 	old := st.clone()
 	// frame
 	mw := x.mayWrite(fi, fc)
@@ -541,15 +563,20 @@ func (x *Exec) callContract(fc *FuncContract, fi *FuncInfo, sig *types.Signature
 			continue
 		}
 		if strings.HasPrefix(k, "xclosed:") {
-			continue // handled by interfere (monotone)
+			// monotone: may only become closed
+			oldc := x.getHeap(st, k).(Term)
+			if oldc.S != "true" {
+				n := x.vc.fresh("closed", sortBool)
+				x.assume(st, tImp(oldc, n))
+				x.setHeap(st, k, n)
+				// whether the callee itself closes it is for its postcondition to say
+			}
+			continue
 		}
 		if _, known := x.heapMakers[k]; !known {
 			continue
 		}
 		x.havocHeap(st, k)
-	}
-	if !fc.Pure {
-		x.interfere(st)
 	}
 	// copy-out for &local arguments
 	for _, a := range args {
@@ -560,6 +587,18 @@ func (x *Exec) callContract(fc *FuncContract, fi *FuncInfo, sig *types.Signature
 	var results []Value
 	for i := 0; i < sig.Results().Len(); i++ {
 		results = append(results, x.freshTyped(sig.Results().At(i).Type(), key+".res", st))
+	}
+	if fc.Pure && fi == nil && len(results) == 1 {
+		// deterministic external: an uninterpreted function of its arguments
+		pure := true
+		for _, a := range args {
+			if _, ok := a.(Term); !ok {
+				pure = false
+			}
+		}
+		if pure {
+			results[0] = x.pureApply(key, sig, args)
+		}
 	}
 	env2 := x.contractEnv(fc, fi, sig, recv, args, results, st, old)
 	for _, en := range fc.Ensures {
@@ -592,6 +631,9 @@ func (x *Exec) interfere(st *State) {
 			}
 			n := x.vc.fresh("closed", sortBool)
 			x.assume(st, tImp(old, n))
+			if a := x.prog.Contracts.Chans[strings.TrimPrefix(k, "xclosed:")]; a != nil && a.Guard != "" {
+				x.assume(st, tImp(x.heldTerm(st, a.Guard), tEq(n, old)))
+			}
 			x.setHeap(st, k, n)
 		}
 	}
@@ -672,7 +714,7 @@ func (x *Exec) builtin(name string, e *ast.CallExpr, st *State) Value {
 			if len(e.Args) > 1 {
 				cp = x.indexTerm(e.Args[1], st)
 			}
-			x.chanInit(st, r, cp)
+			x.chanInit(st, r, cp, typeKey(u.Elem()))
 			return r
 		}
 	case "close":
@@ -918,6 +960,8 @@ func (x *Exec) syncCall(fn *types.Func, f *ast.SelectorExpr, st *State, pos toke
 			x.havocOwned(st, k)
 		}
 		x.setHeap(st, hk, tTrue)
+		x.setHeap(st, x.didLockKey(class), tTrue)
+		x.snapshotOwned(st, class, "atlock:")
 		snap := map[string]Value{}
 		for k, v := range st.heap {
 			snap[k] = v
@@ -959,11 +1003,61 @@ func (x *Exec) syncCall(fn *types.Func, f *ast.SelectorExpr, st *State, pos toke
 				}
 			}
 		}
+		x.snapshotOwned(st, class, "atunlock:")
 		x.setHeap(st, hk, tFalse)
 	default:
 		x.unsupported(f, "sync method %s", fn.Name())
 	}
 	return nil
+}
+
+func (x *Exec) didLockKey(class string) string {
+	key := "didlock:" + class
+	x.registerHeap(key, func() Value { return x.vc.freshBase("didlock", sortBool) })
+	return key
+}
+
+// snapshotOwned copies the state owned by a lock class into shadow heap keys.
+func (x *Exec) snapshotOwned(st *State, class, prefix string) {
+	cs := x.prog.Contracts
+	for _, k := range sortedKeys(cs.Owned) {
+		if cs.Owned[k] != class {
+			continue
+		}
+		for _, hk := range x.ownedHeapKeys(k) {
+			if _, ok := x.heapMakers[hk]; !ok {
+				continue
+			}
+			hk := hk
+			x.registerHeap(prefix+hk, func() Value { return x.freshLikeBase(x.getHeap(st, hk), prefix+hk) })
+			x.setHeap(st, prefix+hk, x.getHeap(st, hk))
+		}
+	}
+}
+
+func (x *Exec) freshLikeBase(v Value, hint string) Value {
+	switch t := v.(type) {
+	case Term:
+		return x.vc.freshBase(hint, t.T)
+	case *StructV:
+		n := &StructV{Names: t.Names, F: make([]Value, len(t.F))}
+		for i, f := range t.F {
+			n.F[i] = x.freshLikeBase(f, hint+"."+t.Names[i])
+		}
+		return n
+	}
+	return v
+}
+
+// shadowState returns a view of st in which lock-owned heap keys are replaced by their snapshots.
+func (x *Exec) shadowState(st *State, prefix string) *State {
+	n := st.clone()
+	for k, v := range st.heap {
+		if strings.HasPrefix(k, prefix) {
+			n.heap[strings.TrimPrefix(k, prefix)] = v
+		}
+	}
+	return n
 }
 
 func (x *Exec) ownedHeapKeys(k string) []string {
